@@ -21,6 +21,10 @@ CONSTANTS
   DevIdleSweep = TRUE
   DevFwdNoEof = FALSE
   SrcKinds = {"direct"}
+  ErrClasses = {"plain"}
+  PollOn = FALSE
+  RetryOn = {}
+  RetryWriteOn = {}
   DevBufio = FALSE
   AttachKinds = {"fwd"}
   HoldOn = TRUE
